@@ -30,6 +30,27 @@ interface Named { name: String }
 type N implements Named { name: String  value: Int!  next: N  divs: [N!] }
 "#;
 
+/// Same type and field names, different nullability and an extra type: anything cached globally by
+/// name or by query text (instead of by schema) would leak between threads using different schemas.
+const SCHEMA_B: &str = r#"
+schema { query: Root }
+directive @filter(op: String!, value: [String!]) repeatable on FIELD | INLINE_FRAGMENT
+directive @tag(name: String) repeatable on FIELD
+directive @output(name: String) repeatable on FIELD
+directive @optional on FIELD
+directive @recurse(depth: Int!) on FIELD
+directive @fold on FIELD
+directive @transform(op: String!) repeatable on FIELD
+type Root { N(max: Int! = 2): [N!]! }
+interface Named { name: String! }
+type N implements Named { name: String!  value: Int  next: N  divs: [N!]  extra: Boolean }
+type Other implements Named { name: String! }
+"#;
+
+fn schema_text(which: usize) -> &'static str {
+    if which % 2 == 0 { SCHEMA } else { SCHEMA_B }
+}
+
 const QUERIES: [&str; 3] = [
     r#"{ N { __typename @output value @output @filter(op: ">=", value: ["$lo"]) divs @fold @transform(op: "count") @output @filter(op: ">=", value: ["$c"]) { name @output } } }"#,
     r#"{ N(max: 4) { name @filter(op: "has_substring", value: ["$s"]) @output next @optional { v: value @output } } }"#,
@@ -152,10 +173,10 @@ fn execute(q: Arc<IndexedQuery>, qi: usize, log: &Arc<Mutex<Vec<u8>>>, tag: u8) 
     format!("{rows:?}")
 }
 
-fn compile_and_run_cold(qi: usize, log: &Arc<Mutex<Vec<u8>>>, tag: u8) -> String {
-    let schema = Schema::parse(SCHEMA).unwrap();
+fn compile_and_run_cold(qi: usize, which_schema: usize, log: &Arc<Mutex<Vec<u8>>>, tag: u8) -> String {
+    let schema = Schema::parse(schema_text(which_schema)).unwrap();
     let q = parse(&schema, QUERIES[qi]).unwrap();
-    let vars = format!("{:?}", q.ir_query.variables);
+    let vars = format!("{:?} {:?}", q.ir_query.variables, q.outputs);
     log.lock().unwrap().push(tag);
     format!("{vars}|{}", execute(q, qi, log, tag))
 }
@@ -176,12 +197,12 @@ fn main() {
             b.wait();
             let qi = (t + variant) % QUERIES.len();
             log.lock().unwrap().push(b'a' + t as u8);
-            let r = compile_and_run_cold(qi, &log, b'a' + t as u8);
+            let r = compile_and_run_cold(qi, t + variant, &log, b'a' + t as u8);
             log.lock().unwrap().push(b'A' + t as u8);
-            (qi, r)
+            (qi, t + variant, r)
         }));
     }
-    let round1: Vec<(usize, String)> = hs.into_iter().map(|h| h.join().unwrap()).collect();
+    let round1: Vec<(usize, usize, String)> = hs.into_iter().map(|h| h.join().unwrap()).collect();
 
     // Round 2: one shared Arc<Schema> and one shared Arc<IndexedQuery>.
     let schema = Arc::new(Schema::parse(SCHEMA).unwrap());
@@ -216,8 +237,8 @@ fn main() {
     // Sequential recomputation.
     let seq_log = Arc::new(Mutex::new(Vec::<u8>::new()));
     let mut ok = true;
-    for (qi, r) in &round1 {
-        if &compile_and_run_cold(*qi, &seq_log, b'.') != r {
+    for (qi, ws, r) in &round1 {
+        if &compile_and_run_cold(*qi, *ws, &seq_log, b'.') != r {
             println!("MISMATCH round1 query {qi}");
             ok = false;
         }
